@@ -560,7 +560,7 @@ func (e *Enc) funcValueCall(ins ssa.Instruction, c *ssa.CallCommon, res *ssa.Cal
 		params = strings.Fields(pn)
 	}
 	wr := map[string]bool{"*": true}
-	if ct.Pure {
+	if ct.Pure || sigWritesNoMemory(ct) {
 		wr = map[string]bool{}
 	}
 	if ts, ok := e.w.sigTargetsOf(c); ok {
